@@ -559,7 +559,8 @@ def run(ck, F, tier):
     from ..report import Scoped
     s = Scoped(ck, 'MB.')
     mblayer.rule_v(s, F, ['tcoef'])
-    mblayer.rule_syntax(s, F, ['dquant', 'block'])
+    mblayer.rule_p(s, F)          # Table 9: which macroblock types carry a DQUANT at all (has_quantizer gates the quantizer update)
+    mblayer.rule_syntax(s, F, ['macroblock', 'dquant', 'block'])
     # a coefficient that is stored but then dropped by the sparse-shape classification is not "reconstructed at its position": the block
     # leaves inverse_rle as Horiz / Vert / Dc / Zero only when every non-zero stored coefficient lies in that shape (C10's rule E)
     from . import c10
